@@ -277,7 +277,14 @@ class Distributed(strategy.Strategy):
                             battery.soc = strat.world_state.vehicles[b_id].battery.soc
                 charging_stations.update(commands)
 
-        # all vehicles charged
-        charging_stations.update(self.distribute_surplus_power())
+        # all vehicles charged: surplus only for vehicles that hold a charging point (number_cs)
+        surplus_vehicles = dict()
+        for gc_id in gcs.keys():
+            candidates = self.world_state.vehicles if skip_prio[gc_id] else self.connected[gc_id]
+            for v_id, vehicle in candidates.items():
+                cs = self.world_state.charging_stations.get(vehicle.connected_charging_station)
+                if cs is not None and cs.parent == gc_id:
+                    surplus_vehicles[v_id] = vehicle
+        charging_stations.update(self.distribute_surplus_power(surplus_vehicles))
 
         return {'current_time': self.current_time, 'commands': charging_stations}
